@@ -1,6 +1,7 @@
 """Models (assumed contracts, T-DEP / T-RAISE) of Python builtins and stdlib calls."""
 from __future__ import annotations
 
+import ast
 import decimal
 import math
 import z3
@@ -382,7 +383,13 @@ def function(ex: I.Executor, f, args, kwargs):
             s = args[0]
             return VSeq(s.len, s.arr, s.kind)
         return VPyList(ex.iter_concrete(args[0]))
+    import operator as _op
+    if f in (_op.eq, _op.ne, _op.lt, _op.le, _op.gt, _op.ge) and len(args) == 2:
+        node_op = {_op.eq: ast.Eq(), _op.ne: ast.NotEq(), _op.lt: ast.Lt(), _op.le: ast.LtE(), _op.gt: ast.Gt(), _op.ge: ast.GtE()}[f]
+        return VBool(ex.compare(node_op, args[0], args[1]))
     if f is iter and len(args) == 1:
+        if isinstance(args[0], (VPyList, VTuple)):
+            return I.VIter(args[0])
         if isinstance(args[0], VSeq):
             return I.VIter(args[0])
         if isinstance(args[0], I.VIter):
